@@ -255,22 +255,21 @@ class Cur:
         return [self.tok() for _ in range(n)]
 
 
-def parse_req(rq):
-    ts = rq.split()
-    op = ts[0]
-    c = Cur(ts[1:])
-    R = dict(op=op)
-    if op in ("c11.min", "c11.max"):
-        R["xl"] = c.dbl(); R["xr"] = c.dbl(); R["tol"] = c.dbl()
+def parse_member(op, ftol, c):
+    """parse body + program + meta of one (n-D) request from the cursor"""
+    R = dict(op=op, ftol=ftol)
+    if op == "c11.nm":
+        n = int(c.tok())
+        R["pp"] = [c.dbls() for _ in range(n)]
+    elif op == "c11.nmd":
+        R["start"] = c.dbls(); R["deltas"] = c.dbls()
     else:
-        R["ftol"] = c.dbl()
-        if op == "c11.nm":
-            n = int(c.tok())
-            R["pp"] = [c.dbls() for _ in range(n)]
-        elif op == "c11.nmd":
-            R["start"] = c.dbls(); R["deltas"] = c.dbls()
-        else:
-            R["start"] = c.dbls(); R["delta"] = c.dbl()
+        R["start"] = c.dbls(); R["delta"] = c.dbl()
+    finish_parse(R, c)
+    return R
+
+
+def finish_parse(R, c):
     R["prog"] = c.toks()
     meta = {}
     for m in c.toks():
@@ -283,7 +282,23 @@ def parse_req(rq):
             R[key] = [fl(t) for t in meta[key].split(",")]
     if "fs" in meta:
         R["fs"] = fl(meta["fs"])
-    return R
+
+
+def parse_req(rq):
+    ts = rq.split()
+    op = ts[0]
+    c = Cur(ts[1:])
+    if op in ("c11.min", "c11.max"):
+        R = dict(op=op)
+        R["xl"] = c.dbl(); R["xr"] = c.dbl(); R["tol"] = c.dbl()
+        finish_parse(R, c)
+        return R
+    ftol = c.dbl()
+    if op == "c11.nmseq":
+        n = int(c.tok())
+        members = [parse_member("c11." + c.tok(), ftol, c) for _ in range(n)]
+        return dict(op=op, ftol=ftol, members=members, cls="seq", meta={})
+    return parse_member(op, ftol, c)
 
 
 def simplex_of(R):
@@ -533,6 +548,40 @@ def gen_multi(rng, n, R):
             R.append(req_nd("c11.nm", ftol, "%d %s" % (len(pp), " ".join(lst(r) for r in pp)), prog, meta))
 
 
+def gen_seq(rng, nlong, nshort, R):
+    """object reuse: ONE Minimization object runs a sequence of easy 2-3-D bowls (long sequences: cumulative evaluation
+    count well above NMAX = 5000, almost all through the explicit-simplex overload; short ones: all three overloads mixed)"""
+    def member(kind, dim, ftol):
+        B, d, cond = gen_quadN(rng, dim)
+        while cond > 20:
+            B, d, cond = gen_quadN(rng, dim)
+        c = [dy(rng, -8, 8) for _ in range(dim)]
+        off = rng.choice([0.0, 1.0, dy(rng, -8, 8)])
+        prog = p_quadN(B, d, c, off)
+        meta = meta_tokens("quadN", c, off, extra={"cond": "%.3g" % cond}) + ["dim=%d" % dim]
+        start = [c[j] + rng.choice([1, -1]) * rng.uniform(0.5, 2) for j in range(dim)]
+        delta = rng.choice([1, -1]) * rng.uniform(0.3, 1.5)
+        if kind == "nm1":
+            body = "%s %s" % (lst(start), hx(delta))
+        elif kind == "nmd":
+            body = "%s %s" % (lst(start), lst([delta * rng.uniform(0.5, 1.5) for _ in range(dim)]))
+        else:
+            pp = [list(start) for _ in range(dim + 1)]
+            for r in range(1, dim + 1):
+                pp[r][r - 1] = start[r - 1] + delta * rng.uniform(0.5, 1.5)
+            body = "%d %s" % (len(pp), " ".join(lst(r) for r in pp))
+        return "%s %s %s %s" % (kind, body, toklist(prog), toklist(meta))
+    for i in range(nlong + nshort):
+        long_ = i < nlong
+        ftol = rng.choice([1e-10, 1e-11, 1e-12]) if long_ else 10.0 ** -rng.randint(4, 10)
+        n = rng.randint(64, 80) if long_ else rng.randint(2, 6)
+        ms = []
+        for j in range(n):
+            kind = rng.choice(["nm", "nm1", "nmd"]) if (not long_ or j < 3) else "nm"
+            ms.append(member(kind, 2 if rng.random() < 0.6 else 3, ftol))
+        R.append("c11.nmseq %s %d %s" % (hx(ftol), n, " ".join(ms)))
+
+
 def generate(tier, seed, ctx):
     rng = random.Random(seed * 7919 + 11)
     R = []
@@ -540,10 +589,12 @@ def generate(tier, seed, ctx):
         gen_1d(rng, 2400, R, ctx)
         gen_nd(rng, 900, R, ctx)
         gen_multi(rng, 400, R)
+        gen_seq(rng, 8, 24, R)
     else:
         gen_1d(rng, 400, R, ctx)
         gen_nd(rng, 100, R, ctx)
         gen_multi(rng, 60, R)
+        gen_seq(rng, 2, 5, R)
     ctx["results"] = {}
     ctx["groups"] = {}
     return R
@@ -674,10 +725,99 @@ def conv_nd(R, I, ctx):
     return (CL_PREMATURE if small else CL_COLLAPSE if nd >= 3 else CL_CONV), msg
 
 
+CL_HISTORY = "minimize: the result depends on earlier runs of the same Minimization object"
+CL_NMAX_RETURN = ("minimize: returns an unconverged point where the evaluation limit (NMAX exceeded) must stop with a "
+                  "diagnostic")
+
+
+def split_answers(s):
+    return [t.strip() for t in s.split(" | ")] if s.strip() else []
+
+
+def compare_seq(R, rq, impl, model, ctx):
+    """class D (justified by theorem nmSeqOn_eq_fresh): every run on the shared object is bit-identical to the run on a
+    fresh object; each fresh run is compared with the model and passes the oracle as a stand-alone request"""
+    out = []
+    ti, tm = tag(impl), tag(model)
+    if tm in ("bad-op", "bad-args", "driver-no-answer") or ti != "ok" or " FRESH" not in impl:
+        return [fail("corr", "protocol", "impl=%s model=%s" % (impl[:80], tm))]
+    body = impl.split(" ", 1)[1]
+    seqpart, freshpart = body.split(" FRESH", 1)
+    seqpart = seqpart[len("SEQ "):].strip()
+    fresh = split_answers(freshpart)
+    mem = R["members"]
+    models = split_answers(model.split(" ", 1)[1]) if tm == "ok" and " " in model else []
+    if len(fresh) != len(mem):
+        return [fail("corr", "protocol: number of fresh answers", "%d vs %d" % (len(fresh), len(mem)))]
+    seqtag = tag(seqpart)
+    seq = split_answers(seqpart.split(" ", 1)[1]) if seqtag == "ok" and " " in seqpart else []
+    seq = ["ok " + a for a in seq]
+    ctx["nontrivial"].add(("c11.nmseq", min(len(mem) // 10, 8), seqtag))
+    bump(ctx, "seq.members", len(mem))
+    total = 0
+    first_diff = point_diff = None
+    for i, (Rm, fr) in enumerate(zip(mem, fresh)):
+        mo = models[i] if i < len(models) else "driver-no-answer"
+        sub = []
+        if crashed(fr):
+            sub.append(fail("prop", "crash/sanitizer/silent exit: " + tag(fr), fr[:100]))
+        elif tag(fr) == "ok":
+            total += len(parse_impl_nd(fr)["tr"])
+            sub += oracle_nd(Rm, fr, ctx, rq)
+            if tag(mo) == "ok":
+                sub += corr_nd(Rm, fr, mo, ctx)
+            elif tag(mo) == "err":
+                sub += nmax_return(Rm, fr, ctx)
+        elif tag(fr) == "err" and tag(mo) == "ok":
+            sub.append(fail("prop", "iteration-limit exit (diagnostic) on a request where the model converges", ""))
+        for f in sub:
+            f["detail"] = "member %d (fresh object): %s" % (i, f.get("detail", ""))
+        out += sub
+        # the shared object
+        if seqtag != "ok":
+            continue
+        if i >= len(seq):
+            out.append(fail("corr", "protocol: shared-object answer missing", "member %d" % i)); break
+        if tag(fr) == "ok" and toks(seq[i]) != toks(fr):
+            Is, If = parse_impl_nd(seq[i]), parse_impl_nd(fr)
+            what = [kk for kk in ("pmin", "fmin", "nfunc", "y", "rows", "tr") if Is[kk] != If[kk] and not (kk == "fmin" and same(Is[kk], If[kk]))]
+            d = "run %d of %d on one object (%d evaluations in earlier runs) differs from the fresh-object run in %s: nfunc %d vs %d, %d vs %d evaluations" % (
+                i + 1, len(mem), total - len(If["tr"]), ",".join(what), Is["nfunc"], If["nfunc"], len(Is["tr"]), len(If["tr"]))
+            if first_diff is None:
+                first_diff = d
+            if "pmin" in what and point_diff is None:
+                point_diff = d + ", returned %r vs %r" % (Is["pmin"], If["pmin"])
+                if Rm["cls"] in BOWL_ND and "fs" in Rm:
+                    r = conv_nd(Rm, Is, ctx)
+                    if r:
+                        point_diff += "; the shared-object result is unconverged: " + r[1]
+    if first_diff is not None:
+        out.append(fail("prop", CL_HISTORY, first_diff + (" || first run returning another point: " + point_diff if point_diff else "")))
+    if seqtag != "ok":
+        if crashed(seqpart):
+            out.append(fail("prop", "crash/sanitizer/silent exit on a reused Minimization object: " + seqtag, seqpart[:100]))
+        elif all(tag(f) == "ok" for f in fresh):
+            out.append(fail("prop", CL_HISTORY, "the sequence on one object ends with '%s' although every run succeeds on a fresh object" % seqtag))
+    elif all(tag(f) == "ok" for f in fresh) and not out:
+        bump(ctx, "seq.bit-identical-to-fresh")
+        ctx["stats"]["seq.max_cumulative_evaluations"] = max(ctx["stats"].get("seq.max_cumulative_evaluations", 0), total)
+    return out
+
+
+def nmax_return(R, impl, ctx):
+    """the model stops with 'NMAX exceeded' but the implementation returns a point"""
+    r = conv_nd(R, parse_impl_nd(impl), ctx) if R["cls"] in BOWL_ND and "fs" in R else None
+    if r:
+        return [fail("prop", CL_NMAX_RETURN, r[1])]
+    return [fail("corr", "model exits with 'NMAX exceeded', implementation returns", "")]
+
+
 def compare(rq, impl, model, ctx):
     R = parse_req(rq)
     op = R["op"]
     bump(ctx, op)
+    if op == "c11.nmseq":
+        return compare_seq(R, rq, impl, model, ctx)
     bump(ctx, "class." + R["cls"])
     ti, tm = tag(impl), tag(model)
     ctx.setdefault("results", {})[rq] = impl
@@ -713,7 +853,7 @@ def compare(rq, impl, model, ctx):
         if tm == "ok":
             out += corr_nd(R, impl, model, ctx)
         elif tm == "err":
-            out.append(fail("corr", "model exits with 'NMAX exceeded', implementation returns", ""))
+            out += nmax_return(R, impl, ctx)
         else:
             bump(ctx, "model.undef")
     return out
@@ -721,6 +861,8 @@ def compare(rq, impl, model, ctx):
 
 def oracle_only(rq, impl, ctx):
     R = parse_req(rq)
+    if R["op"] == "c11.nmseq":
+        return [f for f in compare_seq(R, rq, impl, "undef", ctx) if f["kind"] == "prop"]
     if crashed(impl):
         return [fail("prop", "crash/sanitizer/silent exit: " + tag(impl), impl[:200])]
     if tag(impl) != "ok":
